@@ -24,9 +24,9 @@ func runExpr(r *engine.Run, im *objdrv.Impl, c exprCase, fill func(aux map[strin
 		return
 	}
 	src := fmt.Sprintf("%s __log = []; __done = false; __ret = undefined; __ret = __c(%s); __done = true; 0", c.setup, c.expr)
-	r.Begin(c.key)
+	objdrv.Begin(r, c.key)
 	obs := observe(im, src, "")
-	r.End()
+	objdrv.End()
 	exp := exprExpect(c, om.Quirks{})
 	compare(r, c.key, src, exp, obs, false, func(aux map[string]string) {
 		if fill != nil {
